@@ -117,7 +117,7 @@ func main() {
 		tasks := make([][]*task, *g)
 		for i := 0; i < *g; i++ {
 			for j := 0; j < *per; j++ {
-				t := &task{w: core.GenHistory(r, o), reader: r.Chance(1, 2), kind: []string{"rs", "rsb", "rsx"}[r.Intn(3)]}
+				t := &task{w: core.GenHistory(r, o), reader: r.Chance(1, 2), kind: []string{"rs", "rsb", "rsx", "rsf"}[r.Intn(4)]}
 				tasks[i] = append(tasks[i], t)
 			}
 		}
